@@ -139,6 +139,7 @@ def gen_exact(rng):
     hd = header(opt, 2, "boxquad" if box else "quad", n, [v for r_ in A for v in r_], b, x0, params, lower, upper)
     k = rng.randint(2, 7)
     if opt == "CG": k = min(k, 5 if n <= 2 else 4 if n == 3 else 3)      # the exact rationals of the model square in size with every beta
+    if opt == "BFGS": k = min(k, 3 if n <= 2 else 2)                      # ... and with every update of the inverse Hessian (two updates: the second one starts from a non-identity matrix)
     ops = ["S"] * k
     if rng.random() < 0.7: ops.insert(rng.randint(0, k), "W")
     if rng.random() < 0.2: ops.insert(rng.randint(0, len(ops)), "W")
@@ -357,11 +358,98 @@ def compare(case, mo, io, stats):
     return None
 
 
+
+# ------------------------------------------------------------------ single line-search calls on the hooked objective
+LS_NAME = {0: "dlinmin", 1: "wolfecubic", 2: "backtracking"}
+
+def me(x):
+    """double -> 'm@e' (m * 2^e, exact), the number syntax of the model driver for arbitrary doubles"""
+    x = float(x)
+    if x == 0: return "0@0"
+    m, e = math.frexp(x); m = int(m * (1 << 53)); e -= 53
+    while m % 2 == 0: m //= 2; e += 1
+    return "%d@%d" % (m, e)
+
+def gen_ls(rng, big=False):
+    """L line: one LineSearch::operator() call.  point[i] = 0 wherever d[i] != 0 and d[i] = +-2^k, so that every evaluated
+    point p + t*d is computed without rounding: the model (exact rationals) sees the very same points"""
+    ls = rng.choice([0, 1, 1, 1, 2]); n = rng.randint(1, 4)
+    while True:
+        d = [rng.choice([Fraction(0), Fraction(1, 2), Fraction(1), Fraction(2), Fraction(4), Fraction(-1, 2), Fraction(-1), Fraction(-2)]) for _ in range(n)]
+        if any(d): break
+    point = [Fraction(0) if di else Fraction(rng.randint(-8, 8), 4) for di in d]
+    t0 = rng.choice([Fraction(1), Fraction(1), Fraction(1, 2), Fraction(1, 4), Fraction(1, 8), Fraction(2), Fraction(1, 64)])
+    if rng.random() < 0.03: t0 = Fraction(0)
+    if rng.random() < 0.7: fk, slope, thr = "H", Fraction(1), Fraction(0)
+    else: fk, slope, thr = "M", rng.choice([Fraction(1, 4), Fraction(1), Fraction(4)]), rng.choice([Fraction(1, 2), Fraction(5), Fraction(50), Fraction(5000), Fraction(10) ** 7])
+    seed = rng.randint(1, 10 ** 6)
+    if rng.random() < 0.8: val, g = "auto", "auto"
+    else: val, g = fq(Fraction(rng.randint(-64, 64), 16)), " ".join(fq(Fraction(rng.randint(-16, 16), 8)) for _ in range(n))
+    return "L %d %d %s %d %s %s | %s | %s | %s | %s | %s" % (ls, n, fk, seed, fq(slope), fq(thr), " ".join(fq(v) for v in point), " ".join(fq(v) for v in d), fq(t0), val, g)
+
+def ls_model_line(line, out):
+    """the model's input: the harness line + the values it started from + the ORACLE read from the evaluation log"""
+    d = kv(out); g = [x.strip() for x in line[2:].split("|")]
+    ls = int(g[0].split()[0])
+    log = [(t.split(":")[0], fh(t.split(":")[1])) for t in d["log"].split(",")] if d.get("log") else []      # kind:t:value:gtd
+    wl, x0, us = [], [], []
+    if ls == 1: wl = [t for k, t in log if k == "D"]
+    if ls == 0:
+        fd = next((i for i, (k, _) in enumerate(log) if k == "D"), None)
+        if fd is not None:
+            x0 = [log[fd][1]]; us = [t for k, t in log[fd + 1:] if k == "E"]
+    h = g[0].split(); h[4] = me(float(Fraction(h[4]))); h[5] = me(float(Fraction(h[5]))); g[0] = " ".join(h)
+    return "L %s | %s | %s | %s | %s | %s | %s | %s | %s" % (g[0], g[1], g[2], g[3], me(fh(d["val0"])), " ".join(me(v) for v in fvec(d["g0"])),
+                                                         " ".join(me(t) for t in wl), " ".join(me(t) for t in x0), " ".join(me(t) for t in us))
+
+def judge_ls(line, out, mout):
+    """(monitor messages [(key, msg)], correspondence difference or None, class)"""
+    g = [x.strip() for x in line[2:].split("|")]; ls = int(g[0].split()[0]); name = LS_NAME.get(ls, str(ls))
+    if out.startswith("EXC") or out in ("?", "BADLINE"): return [("monitor:ls-exception:" + name, "line search threw / unreadable: " + out[:200])], None, "exc"
+    d = kv(out)
+    if d["nf"] == "1": return [], None, "nonfinite"
+    if g[0].split()[2] == "P":
+        # floating-point objective: only the observation that the search went backwards along a descent direction
+        j = next(i for i, t in enumerate(g[2].split()) if Fraction(t) != 0)
+        tnew = fvec(d["pt"])[j] / float(Fraction(g[2].split()[j])); gtd0 = sum(a * float(Fraction(b)) for a, b in zip(fvec(d["g0"]), g[2].split()))
+        return [], None, ("backward-step-along-descent-direction" if tnew < 0 and gtd0 < 0 else "float-objective")
+    mon = []
+    auto = g[4] == "auto" and g[5] == "auto"
+    dd = [float(Fraction(t)) for t in g[2].split()]; t0 = float(Fraction(g[3]))
+    gtd = sum(a * b for a, b in zip(fvec(d["g0"]), dd))
+    if d["ub"] == "1":
+        mon.append(("monitor:ls-uninitialised-read:" + name, "the result depends on the previous contents of the stack: after filling it with 0xFF bytes point=%s value=%r derivative=%s, after filling it with -1e300: point=%s value=%r derivative=%s (evaluations: %d)" % (
+            fvec(d["pt"]), fh(d["val"]), fvec(d["der"]), fvec(d.get("pt2", "")), fh(d["val2"]) if d.get("val2") else None, fvec(d.get("der2", "")), d["log"].count(",") + 1)))
+    if auto or ls == 0:
+        if not same_bits(d["val"], d["reval"]): mon.append(("monitor:ls-value-consistent:" + name, "value %r != objective at the new point %r" % (fh(d["val"]), fh(d["reval"]))))
+        if auto and not same_vec(d["der"], d["reder"]): mon.append(("monitor:ls-derivative-consistent:" + name, "derivative %s != gradient at the new point %s" % (fvec(d["der"]), fvec(d["reder"]))))
+    if auto and (ls == 0 or (gtd <= 0 and t0 >= 0)) and not fh(d["val"]) <= fh(d["val0"]):
+        mon.append(("monitor:ls-monotone:" + name, "value increased %r -> %r along a non-ascent direction" % (fh(d["val0"]), fh(d["val"]))))
+    if mout == "UNDEF": return mon, None, "undefined"
+    if mon: return mon, None, "monitor"
+    # the two comparisons of the library that involve an always-inexact product (c1*t*gtd, c2*gtd): where the rounded
+    # and the exact evaluation decide differently the exact model cannot follow the code (ties of the few-valued objective)
+    if ls in (1, 2):
+        C1, C2 = Fraction(1e-4), Fraction(0.9); v0 = fh(d["val0"])
+        for t_ in d["log"].split(","):
+            k_, tt, ff, gg = t_.split(":"); tt, ff, gg = fh(tt), fh(ff), fh(gg)
+            rhs_f = v0 + 1e-4 * tt * gtd; rhs_q = Fraction(v0) + C1 * Fraction(tt) * Fraction(gtd)
+            if (ff < rhs_f) != (Fraction(ff) < rhs_q) or (ff > rhs_f) != (Fraction(ff) > rhs_q): return mon, None, "rounding-sensitive"
+            if ls == 1 and (abs(gg) <= -0.9 * gtd) != (abs(Fraction(gg)) <= -C2 * Fraction(gtd)): return mon, None, "rounding-sensitive"
+    m = kv(mout)
+    if "pt" not in m: return mon, "model printed `%s`" % mout[:100], "diff"
+    if m.get("flags"): return mon, "oracle replay: " + m["flags"], "diff"
+    for k in ("pt", "val", "der"):
+        xa = [qfrac(t) for t in m[k].split(",")] if m[k] else []; xb = fvec(d[k])
+        if len(xa) != len(xb) or any(math.isnan(q) or math.isinf(q) or Fraction(q) != p_ for p_, q in zip(xa, xb)):
+            return mon, "%s: model %s, implementation %s" % (k, [float(x) for x in xa], xb), "diff"
+    return mon, None, "exact"
+
 def read_cases(path):
     cases = []
     for l in open(path).read().split("\n"):
         if not l.strip() or l.startswith("#"): continue
-        if l.startswith("I "): cases.append([l])
+        if l.startswith("I ") or l.startswith("L "): cases.append([l])
         elif cases: cases[-1].append(l)
     return cases
 
@@ -411,6 +499,61 @@ def main():
             for f in sorted(os.listdir(cdir)): cases += read_cases(os.path.join(cdir, f))
         cases += [gen_exact(rng) for _ in range(700 if not big else 6000)]
         cases += [gen_float(rng, big) for _ in range(900 if not big else 6000)]
+
+
+    # ------------------------------------------------------------------ single line-search calls: implementation first, its trial
+    # step lengths (the oracle of the model) are read back from the evaluation log of the hooked objective
+    def run_ls(lines, tag):
+        io_ = run_cases(exe, [[l] for l in lines], os.path.join(tmpd, tag + "_impl.txt"), timeout=3000)
+        ml = [ls_model_line(l, o[0][0]) if (o[0] and " log=" in o[0][0]) else "?" for l, o in zip(lines, io_)]
+        mo_ = run_cases(model, [[l] for l in ml], os.path.join(tmpd, tag + "_model.txt"))
+        res = []
+        for l, o, m, mline in zip(lines, io_, mo_, ml):
+            if m[1] != 0: raise RuntimeError("model driver failed: %s on %s" % (m[2], mline[:300]))
+            if o[1] != 0 or not o[0]: res.append(([("monitor:ls-crash", "implementation crashed (rc=%s) %s" % (o[1], o[2][-200:]))], None, "crash", "", "", mline)); continue
+            res.append(judge_ls(l, o[0][0], m[0][0]) + (o[0][0], m[0][0], mline))
+        return res
+
+    fixed_ls = []
+    ff = os.path.join(ROOT, "harness", "c10_findings.txt")
+    if os.path.exists(ff): fixed_ls = [l for l in open(ff).read().split("\n") if l.startswith("L ")]
+    if ck.replay:
+        ls_lines = [c[0] for c in cases if c[0].startswith("L ")]
+        cases = [c for c in cases if not c[0].startswith("L ")]
+    else:
+        ls_lines = fixed_ls + [gen_ls(rng, big) for _ in range(2500 if not big else 40000)]
+    ls_res = run_ls(ls_lines, "ls")
+    ls_stats = {}; ls_mon = {}; ls_dis = []
+    for i, (msgs, diff, cls, o_, m_, ml_) in enumerate(ls_res):
+        k_ = "%s/%s" % (LS_NAME.get(int(ls_lines[i].split()[1]), "?"), cls); ls_stats[k_] = ls_stats.get(k_, 0) + 1
+        for key, msg in msgs[:1]: ls_mon.setdefault(key, []).append((i, msg))
+        if diff: ls_dis.append((i, diff))
+    def ls_replay(i, key):
+        msgs, diff, cls, o_, m_, ml_ = ls_res[i]
+        cf = ck.write_replay("case_%s_%d.txt" % (re.sub(r"[^A-Za-z0-9]+", "_", key)[:60], i), ls_lines[i] + "\n")
+        return {"case_file": cf, "case": ls_lines[i], "implementation_output": o_, "model_input_with_oracle": ml_, "model_output": m_,
+                "monitor": [m for _, m in msgs], "difference": diff, "replay_cmd": "python3 tools/c10.py --replay %s" % cf}
+    pending = []
+    for key in sorted(ls_mon):
+        i, msg = ls_mon[key][0]
+        if ls_lines[i] in fixed_ls and ck.match_known(key) is None:
+            # a recorded input (harness/c10_findings.txt) of a defect that is reported but neither repaired nor registered as a
+            # known finding yet: shown on every run, kept in the evidence, does not fail the run
+            rp = ls_replay(i, key); pending.append({"key": key, "what": msg, "replay": rp["case_file"]})
+            print("PENDING-FINDING property=%s key=%s replay=%s" % (PID, key, rp["case_file"]), flush=True); log("  -> " + msg[:600])
+            continue
+        ck.violation(key, ls_replay(i, key), "spec monitor fails on a single line-search call (%d cases): %s" % (len(ls_mon[key]), msg))
+    ck.notes["pending_findings"] = pending
+    n_unknown_ls = sum(len(v) for k, v in ls_mon.items() if ck.match_known(k) is None and not all(ls_lines[i] in fixed_ls for i, _ in v))
+    ck.oblige("spec monitors on %d single line-search calls (value/derivative = objective/gradient at the new point, value not increased, result independent of stack contents)" % len(ls_lines),
+              n_unknown_ls == 0, "" if n_unknown_ls == 0 else "keys %s" % sorted(ls_mon)[:4])
+    if ls_dis:
+        i, diff = ls_dis[0]; rp = ls_replay(i, "correspondence-linesearch")
+        rp["broken"] = "correspondence C10LsModel (linesearch: dlinmin / wolfecubic / backtracking state handling) vs LineSearch.cpp"
+        ck.violation("correspondence-linesearch", rp, "correspondence of the line-search model no longer checks (%d of %d calls differ, first: %s); the spec monitors pass on every explored input" % (len(ls_dis), len(ls_lines), diff), no_input=True)
+    ck.oblige("correspondence C10LsModel.linesearch vs LineSearch::operator() on %d calls with the oracle read from the code's evaluation order (%s)" % (
+        len(ls_lines), ", ".join("%s %d" % kv_ for kv_ in sorted(ls_stats.items()))), not ls_dis, "" if not ls_dis else "%d disagreements, first: %s" % (len(ls_dis), ls_dis[0][1]))
+    ck.cov["linesearch_calls"] = ls_stats
 
     def run_both(cs, tag):
         mo = run_cases(model, cs, os.path.join(tmpd, tag + "_model.txt"))
@@ -500,7 +643,7 @@ def main():
     cls = {}
     for c in cases:
         h = c[0].split(); k = "%s/%s/%s" % (h[1], h[2] if h[1] in LS_OPTS else "-", h[3]); cls[k] = cls.get(k, 0) + 1
-    ck.cov["evaluations"] = lines
+    ck.cov["evaluations"] = lines + len(ls_lines)
     ck.cov["distinct_nontrivial"] = len(set("\n".join(c) for c in cases if sum(steps_of(l) for l in c[1:]) >= 3))
     ck.cov["rule"] = ("optimizer histories: header (optimizer, line-search type, objective, start) + steps S / step blocks R k / save-restore points W; "
                       "evaluations = state lines judged (each line: value==objective, finite, feasible, monotone, restored==original; R lines aggregate the per-step predicates of k steps, "
